@@ -2,7 +2,7 @@
    Only statements here; proofs in Proofs/PmtParse.v, PmtTables.v, PmtRead.v, PmtMisc.v.
    Model: Model/Pmt.v, Model/Psi.v (the repaired code).  Spec: Spec/PmtSpec.v. *)
 From Gots Require Import Base.Prelude Model.Psi Model.Pmt Spec.PmtSpec
-  Proofs.PmtBase Proofs.PmtParse Proofs.PmtTables Proofs.PmtRead Proofs.PmtMisc.
+  Proofs.PmtBase Proofs.PmtParse Proofs.PmtTables Proofs.PmtRead Proofs.PmtMisc Proofs.PmtFilter Proofs.PmtHyp.
 Import Pmt.
 Local Open Scope N_scope.
 
@@ -56,6 +56,16 @@ Theorem C06_L4_read_pmt_any_split : forall c pid items,
   read_pmt (packetise pid items) pid = Ok (sec_result (sec c)).
 Proof. exact read_pmt_any_split. Qed.
 Print Assumptions C06_L4_read_pmt_any_split.
+
+(* decidable form: hyp_readb (Spec/PmtSpec.v) checks ALL hypotheses of L4 on a concrete logical case; modelexec runs it on
+   every generated deciding pmt.read case (op spec.hyp.read), so those cases are inside the theorem by construction *)
+Theorem C06_L4_read_pmt_decidable : forall c pid items, hyp_readb c pid items = true ->
+  read_pmt (packetise pid items) pid = Ok (sec_result (sec c)).
+Proof. exact hyp_readb_sound. Qed.
+Print Assumptions C06_L4_read_pmt_decidable.
+Theorem C06_wf_carrier_decidable : forall c, wf_carrierb c = true -> wf_carrier c.
+Proof. exact wf_carrierb_sound. Qed.
+Print Assumptions C06_wf_carrier_decidable.
 
 (* K1 (known finding, by design of ReadPMT): with an EMPTY stream list every other hypothesis of L4 holds, the
    payload parses (L2), and the reader still answers ErrPMTNotFound.  So L4 cannot drop `sstreams <> []`. *)
